@@ -162,7 +162,10 @@ class Soap12(Soap11):
         nsmap = {'soap': self.ns_soap_env}
 
         code = self.generate_faultcode(element)
-        reason = element.find("soap:Reason/soap:Text", namespaces=nsmap).text.strip()
+        # (the message as it was sent: leading and trailing blanks are data)
+        reason = element.find("soap:Reason/soap:Text", namespaces=nsmap).text
+        if reason is None:
+            reason = ''
         role = element.find("soap:Role", namespaces=nsmap)
         node = element.find("soap:Node", namespaces=nsmap)
         detail = element.find("soap:Detail", namespaces=nsmap)
